@@ -2,9 +2,12 @@ package main
 
 import (
 	"fmt"
+	"go/constant"
+	"go/token"
 	"go/types"
 	"regexp"
 	"sort"
+	"strconv"
 	"strings"
 
 	"golang.org/x/tools/go/ssa"
@@ -296,17 +299,15 @@ func tokenisationRule(c *Check, rule string, fams map[string][]*StoreWrite) {
 				continue
 			}
 			a := c.P.ArgExprs(cs)
-			if len(a) != 2 || a[1].Op == "const" || !a[0].Contains(func(e *Expr) bool { return e.IsCall("types.Iterator.Key") }) {
+			if len(a) != 2 || a[1].Op == "const" || !a[0].Contains(func(e *Expr) bool { return e.IsCall("Iterator.Key") }) {
 				continue
 			}
 			sh := c.P.ShapeExpr(a[1])
-			open := false
-			for _, alt := range shapeAlternatives(sh) {
-				if alt != "" && !strings.HasSuffix(alt, "/") && strings.HasSuffix(alt, "⟩") {
-					open = true
-				}
+			verdict := prefixVerdict(x, cs.Ins.Common().Args[1], map[ssa.Value]bool{})
+			if verdict == "" {
+				continue // a form this rule cannot decide (neither a concatenation nor a cut of the key at a split part)
 			}
-			c.Req(!open, rule, funcName(fn)+"/"+cs.Name+" of an iterator key with a computed prefix", cs.Ins.Pos(), "prefix "+trunc(sh)+" ends in a separator or a literal",
+			c.Req(verdict == "closed", rule, funcName(fn)+"/"+cs.Name+" of an iterator key with a computed prefix", cs.Ins.Pos(), "prefix "+trunc(sh)+" ends in the separator",
 				"the iterator key is matched against the computed prefix "+trunc(sh)+", which ends in a variable component and not in the separator: a name that extends another one (eth / ethereum) matches the shorter one's prefix and its entries are mis-read or skipped")
 		}
 		for _, cs := range c.P.CallsInOwn(fn) {
@@ -575,4 +576,170 @@ func shapeAlternatives(sh string) []string {
 		return strings.Split(strings.TrimSuffix(strings.TrimPrefix(sh, "⟨alt:"), "⟩"), "‖")
 	}
 	return []string{sh}
+}
+
+// prefixEndsInSeparator decides, for the forms it understands, whether a computed prefix of a '/'-separated key ends in
+// the separator ("closed") or in a variable component ("open"); "" when undecided. Understood: concatenations (by
+// their shape) and a cut of the key itself at len(key)-len(<last part of SplitN(key,"/",n)>) (closed) or one byte
+// before it (open). Merges are open if any alternative is.
+func prefixEndsInSeparator(p *Program, e *Expr, key *Expr) string {
+	switch e.Op {
+	case "phi", "cell":
+		res := ""
+		for _, a := range e.Args {
+			if a.Op == "const" {
+				continue
+			}
+			switch prefixEndsInSeparator(p, a, key) {
+			case "open":
+				return "open"
+			case "closed":
+				if res == "" {
+					res = "closed"
+				}
+			case "":
+				res = "?"
+			}
+		}
+		if res == "?" {
+			return ""
+		}
+		return res
+	case "slice":
+		k := e.Args[0].String()
+		re := regexp.MustCompile(`^:\(?\(len\(` + regexp.QuoteMeta(k) + `\) - len\(strings\.SplitN\(` + regexp.QuoteMeta(k) + `, "/", (\d+)\)\[(\d+)\]\)\)( - 1\))?$`)
+		m := re.FindStringSubmatch(e.Name)
+		if m == nil {
+			return ""
+		}
+		n, _ := strconv.Atoi(m[1])
+		i, _ := strconv.Atoi(m[2])
+		if i != n-1 {
+			return ""
+		}
+		if m[3] != "" {
+			return "open"
+		}
+		return "closed"
+	}
+	if e.Op == "bin" && e.Name == "+" {
+		// a concatenation ends as its last operand does
+		var parts []*Expr
+		var flat func(x *Expr)
+		flat = func(x *Expr) {
+			if x.Op == "bin" && x.Name == "+" {
+				flat(x.Args[0])
+				flat(x.Args[1])
+				return
+			}
+			parts = append(parts, x)
+		}
+		flat(e)
+		sep := false
+		for _, q := range parts {
+			if q.Op == "const" && strings.Contains(q.Name, "/") {
+				sep = true
+			}
+		}
+		last := parts[len(parts)-1]
+		switch {
+		case !sep:
+			return ""
+		case last.Op == "const":
+			if strings.HasSuffix(strings.Trim(last.Name, "\""), "/") {
+				return "closed"
+			}
+			return ""
+		default:
+			return "open"
+		}
+	}
+	sh := p.ShapeExpr(e)
+	if strings.HasPrefix(sh, "⟨alt:") || !strings.Contains(sh, "/") {
+		return ""
+	}
+	if strings.HasSuffix(sh, "/") {
+		return "closed"
+	}
+	if strings.HasSuffix(sh, "⟩") {
+		return "open"
+	}
+	return ""
+}
+
+// prefixVerdict follows the value of a computed prefix through merges, variables and concatenations (see
+// prefixEndsInSeparator for the verdicts).
+func prefixVerdict(x *Exprer, v ssa.Value, seen map[ssa.Value]bool) string {
+	if seen[v] {
+		return "closed" // neutral element of the merge below
+	}
+	seen[v] = true
+	merge := func(vals []ssa.Value) string {
+		res := "closed"
+		any := false
+		for _, e := range vals {
+			if k, ok := e.(*ssa.Const); ok && k.Value != nil && k.Value.Kind() == constant.String && constant.StringVal(k.Value) == "" {
+				continue
+			}
+			any = true
+			switch prefixVerdict(x, e, seen) {
+			case "open":
+				return "open"
+			case "":
+				res = ""
+			}
+		}
+		if !any {
+			return ""
+		}
+		return res
+	}
+	switch t := v.(type) {
+	case *ssa.Phi:
+		return merge(t.Edges)
+	case *ssa.UnOp:
+		if a, ok := t.X.(*ssa.Alloc); ok && t.Op == token.MUL && a.Referrers() != nil {
+			var vals []ssa.Value
+			for _, r := range *a.Referrers() {
+				if st, ok := r.(*ssa.Store); ok && st.Addr == ssa.Value(a) {
+					vals = append(vals, st.Val)
+				}
+			}
+			return merge(vals)
+		}
+	case *ssa.BinOp:
+		if t.Op != token.ADD {
+			return ""
+		}
+		var parts []ssa.Value
+		var flat func(q ssa.Value)
+		flat = func(q ssa.Value) {
+			if b, ok := q.(*ssa.BinOp); ok && b.Op == token.ADD {
+				flat(b.X)
+				flat(b.Y)
+				return
+			}
+			parts = append(parts, q)
+		}
+		flat(t)
+		sep := false
+		for _, q := range parts {
+			if k, ok := q.(*ssa.Const); ok && k.Value != nil && k.Value.Kind() == constant.String && strings.Contains(constant.StringVal(k.Value), "/") {
+				sep = true
+			}
+		}
+		if !sep {
+			return ""
+		}
+		if k, ok := parts[len(parts)-1].(*ssa.Const); ok {
+			if k.Value != nil && k.Value.Kind() == constant.String && strings.HasSuffix(constant.StringVal(k.Value), "/") {
+				return "closed"
+			}
+			return ""
+		}
+		return "open"
+	case *ssa.Slice:
+		return prefixEndsInSeparator(x.P, x.E(t), nil)
+	}
+	return ""
 }
